@@ -791,15 +791,23 @@ def middleware_rule(chk, repo):
         if not sends:
             continue
         n += 1
+        # every way round the loop from one handler(request) to the next passes a release()/close() of the response (restated after the
+        # fifth hunt as a path rule: an early `break` before the release adds a literal to its path condition but no way round the loop)
+        g_ = cfg_of(call.node)
+        snodes = [n_ for n_ in g_.nodes if n_.in_finally_copy is None and isinstance(getattr(n_, "ast", None), ast.AST) and any(a is s_ or any(x is s_ for x in ast.walk(n_.ast)) for s_ in sends for a in [n_.ast])]
+        relnodes = [n_ for n_ in g_.nodes if isinstance(getattr(n_, "ast", None), ast.AST) and n_.kind == "stmt" and any(
+            isinstance(c.func, ast.Attribute) and c.func.attr in ("release", "close") and isinstance(c.func.value, ast.Name) for c in K.node_calls(n_))]
         lv = {x.id for x in ast.walk(lp.target) if isinstance(x, ast.Name)} if isinstance(lp, ast.For) else set()
-        rel = []
-        for c in ast.walk(lp):
-            if isinstance(c, ast.Call) and isinstance(c.func, ast.Attribute) and c.func.attr in ("release", "close") and c.lineno > sends[0].lineno:
-                lits = [l for cl_ in PC.pc(c, stop=lp) for l in cl_]
-                # guards on the loop variable (which iteration) and on the authentication outcome are fine
-                other = [l for l in lits if not any(v in l.text for v in lv) and "_authenticate" not in l.text]
-                if not other:
-                    rel.append(c)
+        def which_iteration(a, b, k):
+            # a test of the loop variable alone says which iteration this is; its branch that releases nothing is the last iteration
+            if not (a.kind == "test" and k in ("T", "F") and lv and {x.id for x in ast.walk(a.ast) if isinstance(x, ast.Name)} <= lv):
+                return False
+            if b in relnodes:
+                return False
+            return g_.find_path([b], lambda n_: n_ in relnodes, lambda n_: n_ in snodes, EXPLICIT) is None
+        snodes = [n_ for n_ in snodes if any(x is lp for x in prog.enclosing(n_.ast, (ast.For, ast.While)))]
+        again = K.find_path_edges(g_, snodes, lambda n_: n_ in snodes, lambda n_: n_ in relnodes, which_iteration, EXPLICIT) if snodes else None
+        rel = [n_.ast for n_ in relnodes] if (snodes and relnodes and again is None) else []
         if rel:
             chk.ok("C07.middleware", rel[0], "the digest middleware releases the challenge response before it sends the request again")
         else:
